@@ -334,8 +334,8 @@ def run(ctx):
                        'keys': 'two opaque keys with an uninterpreted hash', 'hash': 'CustomHashFunction::hash returns any usize',
                        'worker_books': 'queue of 0..3 jobs over two keys, zero or one job in flight, ops enqueue_job(k) / worker_complete(k) / replace_worker, hand-over succeeding or failing',
                        'outside': 'the factory actor on a runtime (messages in worker mailboxes, Finished reports racing a replacement); same-key exclusivity is an inductive invariant executed for the '
-                                  'routing step (bounds.exclusive) and carried through completion / replacement / resize by the books and pool invariants; sticky-queuer exclusivity and '
-                                  '"queuer never idles a worker while jobs wait" over histories'})
+                                  'routing step (bounds.exclusive) and carried through completion / replacement / resize by the books and pool invariants; "queuer never idles a worker while jobs wait" is an inductive invariant '
+                                  'executed for dispatch / worker_finished_job with the real queuer routers (bounds.queuer_hist); worker death / resize steps of that induction are not executed'})
     ctx.assumptions += ['HashMap / VecDeque / Vec contract models; DefaultHasher is an uninterpreted function of the key', 'WorkerProperties are concrete-shape records (available / busy with a key / queued)']
     check_custom(ctx, prog)
     check_round_robin(ctx, prog)
@@ -344,6 +344,19 @@ def run(ctx):
     check_queuer(ctx, prog, 'StickyQueuerRouting')
     import C14_books
     C14_books.check(ctx, prog)
+    import C14_queuer
+    import C14_queuer_replay
+    C14_queuer.check(ctx, prog, 'QueuerRouting')
+    C14_queuer.check(ctx, prog, 'StickyQueuerRouting')
+    try:
+        bad, n = C14_queuer_replay.battery()
+        ctx.translator_validated += n
+        if bad:
+            rec = {'name': 'queuer_hist.native_battery', 'group': 'C14.queuer_hist', 'solver_s': 0.0, 'status': 'cex'}
+            ctx.obligations.append(rec)
+            ctx.handle_cex(rec['name'], 'C14.queuer_hist.native', None, lambda _m: {'replayed': True, 'detail': 'real FactoryState steps with the queuer routers: %s' % bad[:3], 'replay': {'which': 'queuer_battery'}}, rec)
+    except RuntimeError as e:
+        ctx.inconclusive.append('queuer native battery unavailable: %s' % str(e)[-300:])
     import C14_exclusive
     import C14_exclusive_replay
     C14_exclusive.check(ctx, prog)
@@ -362,6 +375,13 @@ def replay_file(path):
     import json
     import C14_replay
     d = json.load(open(path))
+    if d['replay']['which'] in ('queuer_hist', 'queuer_battery'):
+        import C14_queuer_replay
+        bad, _n = C14_queuer_replay.battery()
+        if d['replay']['which'] == 'queuer_hist':
+            bad += C14_queuer_replay.evaluate(d['replay']['rp'])[0]
+        print('native FactoryState steps with the queuer routers:', bad)
+        return 1 if bad else 0
     if d['replay']['which'] == 'exclusive':
         import C14_exclusive_replay
         rp = d['replay']
